@@ -43,8 +43,8 @@ func ruleHitSorterLess(r *Report, rule string) {
 			return true
 		}
 		if f := callee(info, c); f != nil && f.Name() == "Compare" && len(c.Args) == 4 {
-			a, b := exprStr(c.Args[2]), exprStr(c.Args[3])
-			if strings.HasSuffix(a, "[i]") && strings.HasSuffix(b, "[j]") {
+			lsig := fi.Obj.Type().(*types.Signature)
+			if indexedByParam(info, c.Args[2], lsig, 0) && indexedByParam(info, c.Args[3], lsig, 1) {
 				cmpCall = c
 			}
 		}
@@ -198,7 +198,8 @@ func ruleStorePolarity(r *Report, rule string) {
 		if c, ok := as.Rhs[0].(*ast.CallExpr); ok {
 			if sel, ok := ast.Unparen(c.Fun).(*ast.SelectorExpr); ok && sel.Sel.Name == "compare" && len(c.Args) == 2 {
 				so = objOf(info, as.Lhs[0])
-				argsOK = strings.HasSuffix(exprStr(c.Args[0]), "[i]") && strings.HasSuffix(exprStr(c.Args[1]), "[j]")
+				hsig := hl.Obj.Type().(*types.Signature)
+				argsOK = indexedByParam(info, c.Args[0], hsig, 0) && indexedByParam(info, c.Args[1], hsig, 1)
 			}
 		}
 		return true
@@ -267,7 +268,7 @@ func ruleStorePolarity(r *Report, rule string) {
 	for _, c := range callsDeep(sa.Decl.Body) {
 		if sel, ok := ast.Unparen(c.Fun).(*ast.SelectorExpr); ok && sel.Sel.Name == "compare" && len(c.Args) == 2 {
 			sig := sa.Obj.Type().(*types.Signature)
-			argOrder = objOf(sinfo, c.Args[0]) == sig.Params().At(0) && strings.Contains(strings.ReplaceAll(exprStr(c.Args[1]), " ", ""), "[i-1]")
+			argOrder = objOf(sinfo, c.Args[0]) == sig.Params().At(0) && indexedByVarMinusOne(sinfo, c.Args[1])
 		}
 	}
 	r.Ob(rule, sa.Name+"/insert-after-last-not-greater", sa.Decl.Pos(), okSlice && argOrder, "slice insertion scans from the end and stops at the first stored hit the new one is >= of (stable ascending order, largest last); sign table: "+stable)
@@ -364,8 +365,13 @@ func ruleCollectorHandlerBounds(r *Report, rule string) {
 		ast.Inspect(ctor.Decl.Body, func(x ast.Node) bool {
 			if kv, ok := x.(*ast.KeyValueExpr); ok {
 				if k, ok := kv.Key.(*ast.Ident); ok && k.Name == fld {
-					if v, ok := objOf(ctor.Pkg.TypesInfo, kv.Value).(*types.Var); ok && v.Name() == fld {
-						litOK = true
+					if v, ok := objOf(ctor.Pkg.TypesInfo, kv.Value).(*types.Var); ok {
+						csig := ctor.Obj.Type().(*types.Signature)
+						for i := 0; i < csig.Params().Len(); i++ {
+							if csig.Params().At(i) == v {
+								litOK = true // initialised from a constructor parameter
+							}
+						}
 					}
 				}
 			}
@@ -513,4 +519,24 @@ func ruleCursorLayoutAgreement(r *Report, rule string) {
 		return s
 	}
 	r.Ob(rule, "date-cursor/format-layout==parse-layout", dec.Decl.Pos(), ok, fmt.Sprintf("the layout that prints a date sort value for DecodedSort (%v) must be the layout the collector parses a SearchAfter/SearchBefore cursor with (%v); a coarser print layout makes the cursor sort before the hit it was taken from", names(fm), names(parsers)))
+}
+
+// indexedByParam: e is x[p] where p is the k-th parameter of the function (role, not name).
+func indexedByParam(info *types.Info, e ast.Expr, sig *types.Signature, k int) bool {
+	ix, ok := ast.Unparen(e).(*ast.IndexExpr)
+	return ok && k < sig.Params().Len() && objOf(info, ix.Index) == sig.Params().At(k)
+}
+
+// indexedByVarMinusOne: e is x[v-1] for some variable v.
+func indexedByVarMinusOne(info *types.Info, e ast.Expr) bool {
+	ix, ok := ast.Unparen(e).(*ast.IndexExpr)
+	if !ok {
+		return false
+	}
+	be, ok := ast.Unparen(ix.Index).(*ast.BinaryExpr)
+	if !ok || be.Op != token.SUB || objOf(info, be.X) == nil {
+		return false
+	}
+	k, isC := intConst(info, be.Y)
+	return isC && k == 1
 }
